@@ -47,6 +47,10 @@ pub(crate) fn d_modified(d: &DirFileEntryData) -> crate::time::DateTime {
 pub(crate) fn d_accessed(d: &DirFileEntryData) -> crate::time::Date {
     d.accessed()
 }
+pub(crate) fn with_attrs(mut d: DirFileEntryData, bits: u8) -> DirFileEntryData {
+    d.attrs = FileAttributes::from_bits_truncate(bits);
+    d
+}
 pub(crate) fn d_is_dir(d: &DirFileEntryData) -> bool {
     d.is_dir()
 }
